@@ -200,3 +200,45 @@ def d_matrix_lambda_none(ctx):
                     bad = bad or {"2j": j2, "la": la, "lb": lb, "got": np.asarray(got).tolist()}
     ctx.check("kronecker_delta_on_values", bad is None, clause="get_D_matrix_lambda(None, j, la, lb)[0][i][k] == delta(la[i], lb[k]) for all helicity lists (%d combinations)" % n,
               detail=str(bad), witness=bad)
+
+
+@group(["C12"], "dfun.cached_tables/unchanged_by_use", ["dfun:small_d_weight", "dfun:_tuple_delta_D_trans", "dfun:_tuple_delta_D_index", "dfun:small_d_matrix",
+                                                       "dfun:D_matrix_conj", "dfun:get_D_matrix_lambda", "dfun:Dfun_delta_v2", "dfun:Dfun_delta"],
+       env="tf", kind="G", cost=1,
+       bound="2j = 0..8; the lru_cache'd tables small_d_weight(2j), _tuple_delta_D_trans / _tuple_delta_D_index for full helicity lists; compared (bitwise) before and after "
+             "the public functions that consume them were evaluated twice",
+       assumes=["real TensorFlow process (the consumers are tensor code)"])
+def cached_tables_pure(ctx):
+    """functools.lru_cache hands every caller the SAME mutable object: a consumer that modifies it in place (reverse, +=, masked assignment)
+    corrupts every later evaluation in the process.  (The analogous defect was seeded for the Blatt-Weisskopf coefficient list.)"""
+    import copy
+
+    import numpy as np
+
+    dfun = ctx.mod("dfun")
+    tf = ctx.mod("tensorflow_wrapper").tf
+    bad = None
+    ang = {"alpha": tf.constant([0.3, -1.2], dtype=tf.float64), "beta": tf.constant([1.1, 2.5], dtype=tf.float64), "gamma": tf.constant([-0.7, 0.4], dtype=tf.float64)}
+    for j2 in range(9):
+        j = j2 / 2 if j2 % 2 else j2 // 2
+        hel = tuple(-j + k for k in range(j2 + 1))
+        lb = hel[: min(3, len(hel))]
+        snap = {"small_d_weight": copy.deepcopy(dfun.small_d_weight(j2)),
+                "_tuple_delta_D_trans": copy.deepcopy(dfun._tuple_delta_D_trans(j, hel, lb, lb)),
+                "_tuple_delta_D_index": copy.deepcopy(dfun._tuple_delta_D_index(j, hel, lb, lb))}
+        for _ in range(2):
+            dfun.small_d_matrix(ang["beta"], j2)
+            dfun.D_matrix_conj(ang["alpha"], ang["beta"], ang["gamma"], j2)
+            dfun.get_D_matrix_lambda(dict(ang), j, hel, lb, lb)
+            dfun.get_D_matrix_lambda(dict(ang), j, hel, hel)
+            dfun.Dfun_delta_v2(dfun.D_matrix_conj(ang["alpha"], ang["beta"], ang["gamma"], j2), j, hel, lb, lb)
+        now = {"small_d_weight": dfun.small_d_weight(j2), "_tuple_delta_D_trans": dfun._tuple_delta_D_trans(j, hel, lb, lb),
+               "_tuple_delta_D_index": dfun._tuple_delta_D_index(j, hel, lb, lb)}
+        for k in snap:
+            ctx.count(key=(j2, k))
+            same = np.array_equal(np.asarray(snap[k], dtype=object if isinstance(snap[k], (list, tuple)) and snap[k] and isinstance(snap[k][0], (list, tuple)) else None),
+                                  np.asarray(now[k], dtype=object if isinstance(now[k], (list, tuple)) and now[k] and isinstance(now[k][0], (list, tuple)) else None))
+            if not same and bad is None:
+                bad = {"2j": j2, "table": k}
+    ctx.check("tables_unchanged", bad is None, clause="the cached tables of dfun.py hold the same values after their consumers ran as before (no in-place modification of a cached object)",
+              detail=str(bad), witness=bad)
